@@ -348,6 +348,10 @@ func contractLines(cg *ast.CommentGroup) []rawClause {
 	var out []rawClause
 	for _, c := range cg.List {
 		t := c.Text
+		// gofmt rewrites "//@" to "// @" inside doc comments: both spellings are contract lines
+		if strings.HasPrefix(t, "// @") {
+			t = "//@" + t[4:]
+		}
 		if !strings.HasPrefix(t, "//@") {
 			continue
 		}
